@@ -1310,6 +1310,19 @@ def rule_f15(F):
     return r
 
 
+def rule_f16(F):
+    """The by-value built-ins of lists (`contains`, `index`: the script hands the searched element over, the MIR lowering has taken it
+    out of the caller's frame) own that element: the function that runs the element type's drop function on a parameter does so on
+    EVERY path to its return - an early `return false` for an empty list leaks it.  Shared with C15.M8."""
+    from . import c15
+    r = c15.rule_m8(F)
+    r.rule = "C03.F16"
+    r.desc = "host functions that are handed an element by value drop it on every return path (the caller has given it up)"
+    for v in r.violations:
+        v.rule = "C03.F16"
+    return r
+
+
 def rules(ctx):
     F = ctx["F"]
-    return [rule_f1(F), rule_f2(F), rule_f3(F), rule_f4(F), rule_f5(F), rule_f6(F), rule_f7(F), rule_f8(F), rule_f9(F), rule_f10(F), rule_f11(F), rule_f12(F), rule_f13(F), rule_f14(F), rule_f15(F)]
+    return [rule_f1(F), rule_f2(F), rule_f3(F), rule_f4(F), rule_f5(F), rule_f6(F), rule_f7(F), rule_f8(F), rule_f9(F), rule_f10(F), rule_f11(F), rule_f12(F), rule_f13(F), rule_f14(F), rule_f15(F), rule_f16(F)]
